@@ -549,6 +549,27 @@ func genC11(r *Run) {
 				}
 			}
 		}
+		if k := optMs(closeAt); k != nil && *k < time.Duration(total)*time.Millisecond {
+			// the client was closed while the call was waiting (before any acceptable response): the call ends
+			// at that instant with the no-response error and transmits nothing afterwards
+			accepted := false
+			for _, d := range ds {
+				if len(d) > 4 && d[4] == 1 && msArg(d[:4]) <= *k {
+					accepted = true
+				}
+			}
+			if !accepted {
+				if o.result != 2 || o.end != *k {
+					r.Fail("c11-close-end", trunc(cs, 600), fmt.Sprintf("closed at %v: result class %d at %v, want the no-response error at %v", *k, o.result, o.end, *k))
+				}
+				for _, at := range o.tx {
+					if at >= *k {
+						r.Fail("c11-transmission-after-close", trunc(cs, 600), fmt.Sprintf("transmission at %v, client closed at %v", at, *k))
+						break
+					}
+				}
+			}
+		}
 		if k := optMs(closeAt); k != nil && o.result == 2 && o.end > *k && o.end < time.Duration(total)*time.Millisecond {
 			// a no-response result strictly between close and the schedule's end is late
 			r.Fail("c11-close-instant", trunc(cs, 600), fmt.Sprintf("closed at %v, returned at %v", *k, o.end))
